@@ -95,13 +95,38 @@ func digestImage(im image.Image) string {
 func buildAPICalls(seed int64) []apiCall {
 	rng := rand.New(rand.NewSource(seed))
 	imgs := map[string]*image.NRGBA{
-		"33x17":       noiseNRGBA(rng, 33, 17, 0),
-		"48x32":       noiseNRGBA(rng, 48, 32, 0), // same macroblock grid as 33x17: 3x2
-		"40x24-alpha": noiseNRGBA(rng, 40, 24, 2),
-		"96x128":      noiseNRGBA(rng, 96, 128, 0), // parallel lossy path
-		"64x80-alpha": gradientAlpha(rng, 64, 80),
-		"pal-20x20":   palettedNRGBA(rng, 20, 20, 7),
-		"260x200":     noiseNRGBA(rng, 260, 200, 0), // > 50 000 px: parallel lossless sections
+		"33x17":         noiseNRGBA(rng, 33, 17, 0),
+		"48x32":         noiseNRGBA(rng, 48, 32, 0), // same macroblock grid as 33x17: 3x2
+		"40x24-alpha":   noiseNRGBA(rng, 40, 24, 2),
+		"96x128":        noiseNRGBA(rng, 96, 128, 0), // parallel lossy path
+		"64x80-alpha":   gradientAlpha(rng, 64, 80),
+		"pal-20x20":     palettedNRGBA(rng, 20, 20, 7),
+		"260x200":       noiseNRGBA(rng, 260, 200, 0), // > 50 000 px: parallel lossless sections
+		"400x300-alpha": gradientAlpha(rng, 400, 300), // alpha plane above the parallel thresholds
+	}
+	// flat blocks on a slow gradient and a repeated tile: long matches, empty histogram tiles, several clusters
+	for _, kind := range []int{0, 2} {
+		p := image.NewNRGBA(image.Rect(0, 0, 400, 300))
+		for y := 0; y < 300; y++ {
+			for x := 0; x < 400; x++ {
+				var r, g, b uint8
+				if kind == 0 {
+					s := uint32((x%16)*131+(y%16)*977)*1664525 + 1013904223
+					r, g, b = uint8(s>>24), uint8(s>>16), uint8(s>>8)
+					if y > 200 {
+						r, g, b = uint8(x), uint8(y), uint8(rng.Intn(256))
+					}
+				} else {
+					r, g, b = uint8(x/2), uint8(y/2), 200
+					if (x/7+y/11)%3 == 0 {
+						r, g, b = 20, 20, uint8(x)
+					}
+				}
+				i := p.PixOffset(x, y)
+				p.Pix[i], p.Pix[i+1], p.Pix[i+2], p.Pix[i+3] = r, g, b, 255
+			}
+		}
+		imgs[fmt.Sprintf("repetitive%d-400x300", kind)] = p
 	}
 	var calls []apiCall
 	files := map[string][]byte{}
@@ -129,6 +154,9 @@ func buildAPICalls(seed int64) []apiCall {
 	addEnc("lossless-pal", "pal-20x20", webp.EncoderOptions{Lossless: true, Quality: 90, Method: 6})
 	addEnc("lossless-260x200", "260x200", webp.EncoderOptions{Lossless: true, Quality: 50, Method: 3})
 	addEnc("lossless-alpha-64x80", "64x80-alpha", webp.EncoderOptions{Lossless: true, Quality: 75, Method: 4, Exact: true})
+	addEnc("lossy-alpha-400x300", "400x300-alpha", webp.EncoderOptions{Quality: 50, Method: 1})
+	addEnc("lossless-repetitive0-q95", "repetitive0-400x300", webp.EncoderOptions{Lossless: true, Quality: 95, Method: 4})
+	addEnc("lossless-repetitive2-q100", "repetitive2-400x300", webp.EncoderOptions{Lossless: true, Quality: 100, Method: 3})
 	// extended-container output (metadata, alpha) with call-specific blobs: the writer yields inside Write, so
 	// several Encode calls are between "file assembled" and "file written" at the same time
 	blob := func(tag byte, n int) []byte {
@@ -303,6 +331,9 @@ func c10RaceChild(args []string) {
 		rounds = 40
 	}
 	runConcurrentPrograms(seed, rounds, 4, 3, func(key, msg string) { fmt.Printf("CHILD-VIOLATION %s: %s\n", key, msg); bad++ }, func(string) {})
+	verifhook.Start(seed+1, map[string]int{"pool_put": 70, "*": 3})
+	runConcurrentPrograms(seed+1, rounds, 6, 3, func(key, msg string) { fmt.Printf("CHILD-VIOLATION %s: %s\n", key, msg); bad++ }, func(string) {})
+	verifhook.Stop()
 	fmt.Printf("CHILD-DONE bad=%d\n", bad)
 	if bad > 0 {
 		os.Exit(3)
@@ -397,6 +428,12 @@ func checkC10(args []string) {
 	verifhook.Start(run.Seed, map[string]int{"*": 10})
 	runConcurrentPrograms(run.Seed, run.Pick(6, 40), 4, 3,
 		func(key, msg string) { run.Violate(key, msg, key) }, func(sig string) { run.Eval("prog:" + sig) })
+	verifhook.Stop()
+	// the same alphabet with the caller delayed right after every pool Put (hook PoolPut): an object that is still
+	// used after its release is now in other goroutines' hands while that use goes on
+	verifhook.Start(run.Seed+1, map[string]int{"pool_put": 70, "*": 3})
+	runConcurrentPrograms(run.Seed+1, run.Pick(6, 40), 6, 3,
+		func(key, msg string) { run.Violate(key, msg+" (callers delayed after pool Put)", key) }, func(sig string) { run.Eval("prog-put:" + sig) })
 	verifhook.Stop()
 
 	// the same programs in a -race build
